@@ -13,17 +13,20 @@ from ..types import T
 from .common import DECIDER, REPRESENTATION, REPR_MUT, REPR_XO
 
 LEVEL_TEXT = (
-    "Static rules on the program creators and deciders: (R1) both creators (the tree creator and the stack mapper, "
-    "found as type-form dispatchers that reach apply_constructor) dispatch tuple, annotated, union and abstract forms "
-    "before the concrete fallback, with form predicates that can actually hold (a test against a bare origin whose "
-    "body reads generic parameters is a contradiction); (R2) no generator / map / filter / zip object flows into a "
-    "field, a constructor argument list, a stack or a return; (R3) every decider's random_int / random_float / "
-    "random_bool returns exactly int / float / bool (mypy types plus inferred return kinds through unannotated "
-    "helpers); (R4) every chooser returns an element of the alternatives it was offered; (R5) every loop that builds "
-    "a node appends exactly one argument per declared field on every path and constructs the node from that list and "
-    "that type; (R6) explicit raises reachable from the representation entry points are the library's own error types "
-    "or are caught; (R7) the readers of class declarations keep no cache, so a re-declared field type is honoured. "
-    "Not decided: that typing reflection yields the assumed forms for every user class."
+    "Static rules on the program creators and deciders: (R1) create_node is interpreted (finite-model abstract "
+    "interpretation, sa/treemodel.py: the repository's own type-form predicates inlined over a model of the typing runtime, "
+    "helpers inlined, recursive creation calls recorded) on one symbolic type of every form - int / float / bool, tuple[A, B], "
+    "list[A], Union[A, B], an abstract symbol, a production P(f1: A, f2: list[A]) - and on every non-raising path builds a "
+    "value of that form from one created value per part, in order; the stack mapper keeps the dispatch-table rule (tuple, "
+    "annotated, union, abstract before the concrete fallback; no contradictory origin test); (R2) no generator / map / filter "
+    "/ zip object flows into a field, a constructor argument list, a stack or a return; (R3) every decider's random_int / "
+    "random_float / random_bool returns exactly int / float / bool (mypy types plus inferred return kinds through "
+    "unannotated helpers); (R4) every chooser is abstractly interpreted (affine domain, helper methods inlined, 'a or b' "
+    "fall-backs, emptiness branches) and on every path returns random.choice of / an element of the offered alternatives or "
+    "a comprehension-filtered copy; (R5) every loop or comprehension over the declared fields contributes exactly one "
+    "constructor argument per field on every path; (R6) explicit raises reachable from the representation entry points are "
+    "the library's own error types or are caught; (R7) the readers of class declarations keep no cache. Not decided: that "
+    "typing reflection yields the assumed forms for every user class."
 )
 
 CREATE_NODE = "geneticengine.representations.tree.initializations:create_node"
